@@ -47,8 +47,11 @@ TREES = {
     'b': {'tid': 1, 'files': [(3586, 55181, 3, 5, 3.5529, 1.0e-4), (4055, 55359, 3, 9, 3.5530, 1.0e-4), (4056, 55360, 2, 7, 3.5535, 2.0e-4)],
           'photo': 'none', 'z': 'all'},
     'c': {'tid': 2, 'files': [(1234, 55500, 4, 6, 3.6000, 1.0e-4)], 'photo': 'all', 'z': 'all'},
+    # a plate number with five digits (SDSS-IV), two MJDs
+    'e': {'tid': 3, 'files': [(10001, 57000, 2, 5, 3.5529, 1.0e-4), (10001, 57100, 2, 6, 3.5530, 1.0e-4), (987, 55100, 2, 5, 3.5531, 1.0e-4)],
+          'photo': 'none', 'z': 'all'},
     # partial trees: one plate lacks the optional files
-    'dz': {'tid': 3, 'files': [(3586, 55181, 2, 5, 3.5529, 1.0e-4), (4055, 55359, 2, 5, 3.5530, 1.0e-4)], 'photo': 'none', 'z': [0]},
+    'dz': {'tid': 2, 'files': [(3586, 55181, 2, 5, 3.5529, 1.0e-4), (4055, 55359, 2, 5, 3.5530, 1.0e-4)], 'photo': 'none', 'z': [0]},
     'dp': {'tid': 3, 'files': [(3586, 55181, 2, 5, 3.5529, 1.0e-4), (4055, 55359, 2, 5, 3.5530, 1.0e-4)], 'photo': [1], 'z': 'all'},
 }
 DECOY_TID_OFFSET = 4
@@ -332,6 +335,8 @@ def check_rs(world, case):
                 trig.append('mjd-omitted+run1d-kwarg')
             elif 'fiber' not in kw:
                 trig.append('fiber-omitted')
+            elif 'mjd' not in kw and any(p > 9999 for p, m, f in req):
+                trig.append('mjd-omitted+plate>9999')
             t = ':' + '+'.join(trig) if trig else ''
             if not trig and world.loc == 'topdir':
                 t = ':topdir-kwarg'
@@ -459,6 +464,8 @@ def check_helper(world, case):
             trig = ''
             if 'run1d' in world.kwargs and fn == 'number_of_fibers':
                 trig = ':run1d-kwarg'
+            elif fn in ('number_of_fibers', 'latest_mjd') and any(p > 9999 for p in plates):
+                trig = ':plate>9999'
             elif fn == 'number_of_fibers' and any(world.latest(p) >= 55025 for p in plates):
                 trig = ':mjd>=55025'
             return [('%s:exception:%s%s' % (fn, type(e).__name__, trig), repr(e))], 'exc', True
@@ -500,7 +507,7 @@ def check_sa(case):
 LOCS_FOR = {'a': ['path', 'pathkw', 'env', 'envkw', 'topdir', 'sdss1', 'match'],
             'b': ['path', 'env', 'topdir', 'noenv'],
             'c': ['path', 'env', 'match'],
-            'dz': ['path'], 'dp': ['path']}
+            'dz': ['path'], 'dp': ['path'], 'e': ['path', 'env']}
 
 
 def tasks(tier):
@@ -525,7 +532,7 @@ def tasks(tier):
     split('c', 'path', ['vec'], L, 1 if T else 0)
     # other conventions and locations: all sequences up to length 2 (3 thorough)
     ml = 3 if T else 2
-    for tree in ('a', 'b', 'c', 'dz', 'dp'):
+    for tree in ('a', 'b', 'c', 'dz', 'dp', 'e'):
         for loc in LOCS_FOR[tree]:
             convs = other if loc == 'path' else ['vec', 'splate', 'nomjd', 'scalar', 'allfibers']
             split(tree, loc, convs, ml, 1 if (T and tree in ('a', 'b')) else 0)
@@ -534,7 +541,7 @@ def tasks(tier):
         split('b', 'path', ['allfibers', 'allfibers-nomjd'], 3, 0)
         split('b', 'env', ['allfibers', 'allfibers-nomjd'], 3, 0)
     split('c', 'path', ['allfibers', 'allfibers-nomjd'], 4, 0)
-    for tree in ('a', 'b'):
+    for tree in ('a', 'b', 'e'):
         for loc in ('path', 'pathkw', 'env', 'envkw'):
             t.append({'k': 'hp', 'tree': tree, 'loc': loc, 'maxlen': 3})
     return t
